@@ -19,6 +19,8 @@ type verifSym struct {
 	ka, kb, kc int // kinds of Sym.a / Sym.b / Sym.c (0..5: NilClass Integer String Bool Float Symbol)
 	u1, u2     int // kinds of Sym.u (distinct)
 	w1, w2, w3 int // kinds of Sym.w (pairwise distinct)
+	kn         int // kind of Sym.n (numeric leaf: Integer or Float)
+	o1, o2, o3 int // Sym.o: a permutation of 0 NilClass, 1 VA, 2 VB (instances of user classes VA / VB)
 }
 
 // verifKindHi: symbolic kinds range over NilClass, Integer, String, Bool (indices 0..3) by
@@ -48,6 +50,15 @@ func verifInstallSym(names ...string) *verifSym {
 		case "c":
 			s.kc = verifapi.Int("kc", 0, verifKindHi)
 			vals[n] = *base.VerifKindT(s.kc)
+		case "n":
+			s.kn = verifapi.PickInt(verifapi.Int("kn", 0, 1), base.VkInt, base.VkFloat)
+			vals[n] = *base.VerifKindT(s.kn)
+		case "o":
+			s.o1 = verifapi.Int("o1", 0, 2)
+			s.o2 = verifapi.Int("o2", 0, 2)
+			s.o3 = verifapi.Int("o3", 0, 2)
+			verifapi.Assume(s.o1 != s.o2 && s.o1 != s.o3 && s.o2 != s.o3)
+			vals[n] = *base.MakeUnion([]base.T{*base.VerifObjKindT(s.o1), *base.VerifObjKindT(s.o2), *base.VerifObjKindT(s.o3)})
 		case "u":
 			s.u1 = verifapi.Int("u1", 0, verifKindHi)
 			s.u2 = verifapi.Int("u2", 0, verifKindHi)
@@ -334,6 +345,198 @@ func VerifNarrowChain(n int) {
 	verifExpect(out, "C10-chain-later-conditional", "C10/and-chain/later-conditional-narrows-from-wrong-type/"+shape, 10, verifRenderKinds(notNil))
 }
 
+var verifNarrowShapeNames = []string{"if-elsif-else", "nested-conditionals-on-one-variable", "parameter-inside-method-body", "unless-else", "conditional-inside-block", "conditional-after-conditional", "elsif-on-second-variable"}
+
+// VerifNarrowShapes: x = Sym.w (three distinct kinds) narrowed by conditionals of other shapes
+// than VerifNarrow's: elsif chains, a conditional nested in a branch, a method parameter, a
+// conditional inside a block, two conditionals in sequence. The expected type of every probe
+// is computed from which kinds pass the tests that guard it.
+func VerifNarrowShapes(n int) {
+	sk := verifapi.Concrete(verifapi.Int("skeleton", 0, len(verifNarrowShapeNames)-1))
+	hiForm := 3
+	verifKindHi = 2
+	verifNoWiden = true
+	if n >= 2 {
+		hiForm = 5
+	}
+	f1 := verifapi.Concrete(verifapi.Int("f1", 0, hiForm))
+	f2 := verifapi.Concrete(verifapi.Int("f2", 0, hiForm))
+	names := []string{"w"}
+	if sk == 6 {
+		names = []string{"w", "u"}
+	}
+	s := verifInstallSym(names...)
+	verifapi.WitnessList("Sym.w", verifKN(s.w1), verifKN(s.w2), verifKN(s.w3))
+	if sk == 6 {
+		verifapi.WitnessList("Sym.u", verifKN(s.u1), verifKN(s.u2))
+	}
+	xs := []int{s.w1, s.w2, s.w3}
+	sel := func(ks []int, pred func(k int) bool) []int {
+		var out []int
+		for _, k := range ks {
+			if pred(k) {
+				out = append(out, k)
+			}
+		}
+		return out
+	}
+	t1 := func(k int) bool { return verifTestAdmits(f1, k) }
+	t2 := func(k int) bool { return verifTestAdmits(f2, k) }
+	type probe struct {
+		id   string
+		row  int
+		ks   []int
+		what string
+	}
+	var probes []probe
+	src := ""
+	switch sk {
+	case 0:
+		src = "x = Sym.w\nif " + verifTestText("x", f1) + "\ndbtp x\nelsif " + verifTestText("x", f2) + "\ndbtp x\nelse\ndbtp x\nend\ndbtp x\n"
+		probes = []probe{{"C10-s-then", 3, sel(xs, t1), "then-branch-type-wrong"},
+			{"C10-s-elsif", 5, sel(xs, func(k int) bool { return !t1(k) && t2(k) }), "elsif-branch-type-wrong"},
+			{"C10-s-else", 7, sel(xs, func(k int) bool { return !t1(k) && !t2(k) }), "else-branch-type-wrong"},
+			{"C10-s-after", 9, xs, "type-after-conditional-not-restored"}}
+	case 1:
+		src = "x = Sym.w\nif " + verifTestText("x", f1) + "\ndbtp x\nif " + verifTestText("x", f2) + "\ndbtp x\nelse\ndbtp x\nend\ndbtp x\nend\ndbtp x\n"
+		in1 := sel(xs, t1)
+		probes = []probe{{"C10-s-then", 3, in1, "then-branch-type-wrong"},
+			{"C10-s-inner-then", 5, sel(in1, t2), "inner-then-branch-type-wrong"},
+			{"C10-s-inner-else", 7, sel(in1, func(k int) bool { return !t2(k) }), "inner-else-branch-type-wrong"},
+			{"C10-s-inner-after", 9, in1, "outer-narrowing-lost-after-inner-conditional"},
+			{"C10-s-after", 11, xs, "type-after-conditional-not-restored"}}
+		if len(in1) == 0 {
+			probes = probes[4:]
+		}
+	case 2:
+		src = "def mm(v)\nif " + verifTestText("v", f1) + "\ndbtp v\nelse\ndbtp v\nend\ndbtp v\nend\nmm(Sym.w)\n"
+		probes = []probe{{"C10-s-then", 3, sel(xs, t1), "then-branch-type-wrong"},
+			{"C10-s-else", 5, sel(xs, func(k int) bool { return !t1(k) }), "else-branch-type-wrong"},
+			{"C10-s-after", 7, xs, "type-after-conditional-not-restored"}}
+	case 3:
+		src = "x = Sym.w\nunless " + verifTestText("x", f1) + "\ndbtp x\nelse\ndbtp x\nend\ndbtp x\n"
+		probes = []probe{{"C10-s-then", 3, sel(xs, func(k int) bool { return !t1(k) }), "then-branch-type-wrong"},
+			{"C10-s-else", 5, sel(xs, t1), "else-branch-type-wrong"},
+			{"C10-s-after", 7, xs, "type-after-conditional-not-restored"}}
+	case 4:
+		src = "x = Sym.w\na = [1]\na.each do |e|\nif " + verifTestText("x", f1) + "\ndbtp x\nend\ndbtp x\nend\ndbtp x\n"
+		probes = []probe{{"C10-s-then", 5, sel(xs, t1), "then-branch-type-wrong"},
+			{"C10-s-after", 7, xs, "type-after-conditional-not-restored"},
+			{"C10-s-after-block", 9, xs, "type-after-conditional-not-restored"}}
+	case 5:
+		src = "x = Sym.w\nif " + verifTestText("x", f1) + "\ndbtp x\nend\nif " + verifTestText("x", f2) + "\ndbtp x\nelse\ndbtp x\nend\ndbtp x\n"
+		probes = []probe{{"C10-s-then", 3, sel(xs, t1), "then-branch-type-wrong"},
+			{"C10-s-second-then", 6, sel(xs, t2), "later-conditional-narrows-from-wrong-type"},
+			{"C10-s-second-else", 8, sel(xs, func(k int) bool { return !t2(k) }), "later-conditional-narrows-from-wrong-type"},
+			{"C10-s-after", 10, xs, "type-after-conditional-not-restored"}}
+	case 6:
+		ys := []int{s.u1, s.u2}
+		src = "x = Sym.w\ny = Sym.u\nif " + verifTestText("x", f1) + "\ndbtp x\ndbtp y\nelsif " + verifTestText("y", f2) + "\ndbtp x\ndbtp y\nelse\ndbtp x\ndbtp y\nend\ndbtp x\ndbtp y\n"
+		notT1 := sel(xs, func(k int) bool { return !t1(k) })
+		probes = []probe{{"C10-s-then", 4, sel(xs, t1), "then-branch-type-wrong"},
+			{"C10-s-then-y", 5, ys, "unrelated-variable-narrowed"},
+			{"C10-s-elsif", 7, notT1, "elsif-branch-type-wrong"},
+			{"C10-s-elsif-y", 8, sel(ys, t2), "elsif-branch-type-wrong"},
+			{"C10-s-else", 10, notT1, "else-branch-type-wrong"},
+			{"C10-s-else-y", 11, sel(ys, func(k int) bool { return !t2(k) }), "else-branch-type-wrong"},
+			{"C10-s-after", 13, xs, "type-after-conditional-not-restored"},
+			{"C10-s-after-y", 14, ys, "type-after-conditional-not-restored"}}
+	}
+	verifapi.Witness("src", src)
+	verifapi.Witness("tests", verifTestName[f1]+" ; "+verifTestName[f2])
+	out := verifRun(src)
+	verifapi.Reach("ran")
+	verifapi.Witness("engine-output", out)
+	pol := []string{"positive", "negated"}
+	shape := verifNarrowShapeNames[sk] + "/" + pol[f1%2] + "-first-test"
+	if sk == 0 || sk == 1 || sk == 5 || sk == 6 {
+		shape += "-" + pol[f2%2] + "-second-test"
+	}
+	for _, p := range probes {
+		if len(p.ks) == 0 {
+			continue // no kind reaches this branch: the statement makes no claim
+		}
+		verifExpect(out, p.id, "C10/"+p.what+"/"+shape, p.row, verifRenderKinds(p.ks))
+	}
+}
+
+var verifObjTestText = []string{"x.nil?", "!x.nil?", "x.is_a?(Va)", "!x.is_a?(Va)", "x.is_a?(Vb)", "!x.is_a?(Vb)"}
+var verifObjTestName = []string{"nil?", "not-nil?", "is_a?(Va)", "not-is_a?(Va)", "is_a?(Vb)", "not-is_a?(Vb)"}
+
+func verifObjTestAdmits(form, k int) bool {
+	return (k == form/2) == (form%2 == 0)
+}
+
+func verifON(i int) string { return verifapi.Pick(i, "NilClass", "Va", "Vb") }
+
+func verifRenderObjs(ks []int) string {
+	if len(ks) == 1 {
+		return verifON(ks[0])
+	}
+	s := "Union<"
+	for i, k := range ks {
+		if i > 0 {
+			s += " "
+		}
+		s += verifON(k)
+	}
+	return s + ">"
+}
+
+// VerifNarrowObjects: x = Sym.o, a union of NilClass and instances of two user classes Va, Vb
+// (every order), narrowed by if T1 / elsif T2 / else with T over nil? and is_a?(Va|Vb) and
+// their negations; plus a concrete union holding a container (Array<Integer>).
+func VerifNarrowObjects(n int) {
+	sk := verifapi.Concrete(verifapi.Int("skeleton", 0, 1))
+	if sk == 1 {
+		s := verifInstallSym("a")
+		verifapi.WitnessList("Sym.a", verifKN(s.ka))
+		src := "x = true ? [1] : (true ? \"s\" : 1.5)\ny = Sym.a\nif x.is_a?(Array)\ndbtp x\nelse\ndbtp x\nend\ndbtp x\ndbtp y\n"
+		verifapi.Witness("src", src)
+		out := verifRun(src)
+		verifapi.Reach("ran")
+		verifExpect(out, "C10-o-then", "C10/then-branch-type-wrong/union-with-array-variant", 4, "Array<Integer>")
+		verifExpect(out, "C10-o-else", "C10/else-branch-type-wrong/union-with-array-variant", 6, "Union<String Float>")
+		verifExpect(out, "C10-o-after", "C10/type-after-conditional-not-restored/union-with-array-variant", 8, "Union<Array<Integer> String Float>")
+		verifExpect(out, "C10-o-other", "C10/unrelated-variable-narrowed/union-with-array-variant", 9, verifKN(s.ka))
+		return
+	}
+	f1 := verifapi.Concrete(verifapi.Int("f1", 0, 5))
+	f2 := verifapi.Concrete(verifapi.Int("f2", 0, 5))
+	s := verifInstallSym("o")
+	verifapi.WitnessList("Sym.o", verifON(s.o1), verifON(s.o2), verifON(s.o3))
+	xs := []int{s.o1, s.o2, s.o3}
+	src := "class Va\ndef va_m\n1\nend\nend\nclass Vb\ndef vb_m\n2\nend\nend\nx = Sym.o\nif " + verifObjTestText[f1] + "\ndbtp x\nelsif " + verifObjTestText[f2] + "\ndbtp x\nelse\ndbtp x\nend\ndbtp x\n"
+	verifapi.Witness("src", src)
+	verifapi.Witness("tests", verifObjTestName[f1]+" ; "+verifObjTestName[f2])
+	out := verifRun(src)
+	verifapi.Reach("ran")
+	verifapi.Witness("engine-output", out)
+	var thenK, elsifK, elseK []int
+	for _, k := range xs {
+		switch {
+		case verifObjTestAdmits(f1, k):
+			thenK = append(thenK, k)
+		case verifObjTestAdmits(f2, k):
+			elsifK = append(elsifK, k)
+		default:
+			elseK = append(elseK, k)
+		}
+	}
+	pol := []string{"positive", "negated"}
+	shape := "user-class-instances/" + pol[f1%2] + "-first-test-" + pol[f2%2] + "-second-test"
+	if len(thenK) > 0 {
+		verifExpect(out, "C10-o-then", "C10/then-branch-type-wrong/"+shape, 13, verifRenderObjs(thenK))
+	}
+	if len(elsifK) > 0 {
+		verifExpect(out, "C10-o-elsif", "C10/elsif-branch-type-wrong/"+shape, 15, verifRenderObjs(elsifK))
+	}
+	if len(elseK) > 0 {
+		verifExpect(out, "C10-o-else", "C10/else-branch-type-wrong/"+shape, 17, verifRenderObjs(elseK))
+	}
+	verifExpect(out, "C10-o-after", "C10/type-after-conditional-not-restored/"+shape, 19, verifRenderObjs(xs))
+}
+
 // ---- metamorphic helpers ----
 
 // verifRunTwo runs two programs from the same initial state (Snapshot/Restore) and returns
@@ -481,7 +684,11 @@ func verifExpectOneOf(out string, id, class string, row int, alts []string) {
 
 var verifInferNames = []string{"literal-kind", "reassignment", "array-literal", "array-index", "hash-literal-lookup", "push-growth", "shovel-growth",
 	"optional-unify-first", "unify-shift", "self-flatten", "keyvaluearray-values", "self-dup", "copy-then-reassign", "chain-flatten-first",
-	"array-of-same", "union-return", "hash-store-then-lookup", "union-return-delete", "receiver-after-first", "argument-return", "union-return-delete-two-values", "union-return-shift-unify"}
+	"array-of-same", "union-return", "hash-store-then-lookup", "union-return-delete", "receiver-after-first", "argument-return", "union-return-delete-two-values", "union-return-shift-unify",
+	"last-with-count-self", "max-optional-unify", "shift-with-count-self", "array-times-integer-self", "array-times-string", "range-first-optional", "range-first-count-array",
+	"integer-times-numeric", "at-optional-unify", "delete_at-optional-unify", "array-minus-self", "array-and-self", "index-assignment-growth", "reject-block-self",
+	"collect-block-result-array", "hash-key-declared-union", "each-returns-self", "to_s-on-any-kind", "hash-store-new-key-values", "ternary-union", "interpolated-string",
+	"multiple-assignment", "array-destructuring-assignment", "numeric-plus-integer", "min-optional-unify", "last-optional-unify", "string-optional-return", "integer-compare"}
 
 // VerifInfer: straight-line skeletons probed with dbtp; the expected type is computed from
 // the kind variables by the reference model of the property statement.
@@ -500,6 +707,7 @@ func VerifInfer(n int) {
 	uni := func() []string { return verifUnionAlts([]int{s.ka, s.kb}) }
 	uniNil := func() []string { return verifUnionAlts([]int{s.ka, s.kb, base.VkNil}) }
 	one := func(k *int) func() []string { return func() []string { return []string{verifKN(*k)} } }
+	fixed := func(t string) func() []string { return func() []string { return []string{t} } }
 	s = &verifSym{}
 	switch sk {
 	case 0:
@@ -590,10 +798,123 @@ func VerifInfer(n int) {
 		s = verifInstallSym("a", "b")
 		src = "a = [Sym.a, Sym.b]\nb = a.pop\ndbtp b\n"
 		probes = []probe{{3, uniNil}}
+	case 22:
+		s = verifInstallSym("a", "b")
+		src = "a = [Sym.a, Sym.b]\nb = a.last(1)\ndbtp b\n"
+		probes = []probe{{3, arr}}
+	case 23:
+		s = verifInstallSym("a", "b")
+		src = "a = [Sym.a, Sym.b]\nb = a.max\ndbtp b\n"
+		probes = []probe{{3, uniNil}}
+	case 24:
+		s = verifInstallSym("a", "b")
+		src = "a = [Sym.a, Sym.b]\nb = a.shift(1)\ndbtp b\n"
+		probes = []probe{{3, arr}}
+	case 25:
+		s = verifInstallSym("a", "b")
+		src = "a = [Sym.a, Sym.b]\nb = a * 2\ndbtp b\n"
+		probes = []probe{{3, arr}}
+	case 26:
+		s = verifInstallSym("a", "b")
+		src = "a = [Sym.a, Sym.b]\nb = a * \",\"\ndbtp b\n"
+		probes = []probe{{3, fixed("String")}}
+	case 27:
+		s = verifInstallSym("a")
+		src = "r = (1..3)\nx = Sym.a\nh = r.first\ndbtp h\ndbtp x\n"
+		probes = []probe{{4, func() []string { return verifUnionAlts([]int{base.VkInt, base.VkNil}) }}, {5, one(&s.ka)}}
+	case 28:
+		s = verifInstallSym("a")
+		src = "r = (1..3)\nx = Sym.a\nh = r.first(2)\ndbtp h\ndbtp x\n"
+		probes = []probe{{4, fixed("Array<Integer>")}, {5, one(&s.ka)}}
+	case 29:
+		s = verifInstallSym("n")
+		src = "x = Sym.n\nj = 2 * x\ndbtp j\nk = 2 - x\ndbtp k\n"
+		probes = []probe{{3, one(&s.kn)}, {5, one(&s.kn)}}
+	case 30:
+		s = verifInstallSym("a", "b")
+		src = "a = [Sym.a, Sym.b]\nb = a.at(0)\ndbtp b\n"
+		probes = []probe{{3, uniNil}}
+	case 31:
+		s = verifInstallSym("a", "b")
+		src = "a = [Sym.a, Sym.b]\nb = a.delete_at(0)\ndbtp b\n"
+		probes = []probe{{3, uniNil}}
+	case 32:
+		s = verifInstallSym("a", "b")
+		src = "a = [Sym.a, Sym.b]\nb = a - [1]\ndbtp b\n"
+		probes = []probe{{3, arr}}
+	case 33:
+		s = verifInstallSym("a", "b")
+		src = "a = [Sym.a, Sym.b]\nb = a & [1]\ndbtp b\n"
+		probes = []probe{{3, arr}}
+	case 34:
+		s = verifInstallSym("a", "b")
+		src = "a = [Sym.a]\na[0] = Sym.b\ndbtp a\n"
+		probes = []probe{{3, arr}}
+	case 35:
+		s = verifInstallSym("a", "b")
+		src = "a = [Sym.a, Sym.b]\nb = a.reject do |z|\ntrue\nend\ndbtp b\n"
+		probes = []probe{{5, arr}}
+	case 36:
+		s = verifInstallSym("a", "b")
+		src = "a = [Sym.a, 1]\nb = a.collect do |z|\nSym.b\nend\ndbtp b\n"
+		probes = []probe{{5, func() []string { return verifArrayAlts([]int{s.kb}) }}}
+	case 37:
+		s = verifInstallSym("a", "b")
+		src = "h = {k: Sym.a, j: Sym.b}\nb = h.key(1)\ndbtp b\n"
+		probes = []probe{{3, func() []string { return verifUnionAlts([]int{base.VkString, base.VkSymbol, base.VkNil}) }}}
+	case 38:
+		s = verifInstallSym("a", "b")
+		src = "a = [Sym.a, Sym.b]\nb = a.each do |z|\nend\ndbtp b\n"
+		probes = []probe{{4, arr}}
+	case 39:
+		s = verifInstallSym("a")
+		src = "x = Sym.a\ny = x.to_s\ndbtp y\n"
+		probes = []probe{{3, fixed("String")}}
+	case 40:
+		s = verifInstallSym("a", "b")
+		src = "h = {k: Sym.a}\nh[:j] = Sym.b\nv = h.values\ndbtp v\n"
+		probes = []probe{{4, arr}}
+	case 41:
+		s = verifInstallSym("a", "b")
+		src = "x = true ? Sym.a : Sym.b\ndbtp x\n"
+		probes = []probe{{2, uni}}
+	case 42:
+		s = verifInstallSym("a")
+		src = "x = Sym.a\ny = \"v#{x}w\"\ndbtp y\n"
+		probes = []probe{{3, fixed("String")}}
+	case 43:
+		s = verifInstallSym("a", "b")
+		src = "d, e = Sym.a, Sym.b\ndbtp d\ndbtp e\n"
+		probes = []probe{{2, one(&s.ka)}, {3, one(&s.kb)}}
+	case 44:
+		s = verifInstallSym("a", "b")
+		src = "f = [Sym.a, Sym.b]\ng, j = f\ndbtp g\ndbtp j\n"
+		probes = []probe{{3, one(&s.ka)}, {4, one(&s.kb)}}
+	case 45:
+		s = verifInstallSym("n")
+		src = "x = Sym.n\nj = x + 2\ndbtp j\n"
+		probes = []probe{{3, one(&s.kn)}}
+	case 46:
+		s = verifInstallSym("a", "b")
+		src = "a = [Sym.a, Sym.b]\nb = a.min\ndbtp b\n"
+		probes = []probe{{3, uniNil}}
+	case 47:
+		s = verifInstallSym("a", "b")
+		src = "a = [Sym.a, Sym.b]\nb = a.last\ndbtp b\n"
+		probes = []probe{{3, uniNil}}
+	case 48:
+		s = verifInstallSym("a")
+		src = "x = Sym.a\nt = \"abc\".index(\"b\")\ndbtp t\nu = \"abc\".upcase!\ndbtp u\n"
+		probes = []probe{{3, func() []string { return verifUnionAlts([]int{base.VkInt, base.VkNil}) }}, {5, func() []string { return verifUnionAlts([]int{base.VkString, base.VkNil}) }}}
+	case 49:
+		s = verifInstallSym("n")
+		src = "x = Sym.n\nl = 2 <=> 3\ndbtp l\nm = 2 == x\ndbtp m\n"
+		probes = []probe{{3, fixed("Integer")}, {5, fixed("Bool")}}
 	}
 	verifapi.Witness("src", src)
 	verifapi.WitnessList("Sym.a", verifKN(s.ka))
 	verifapi.WitnessList("Sym.b", verifKN(s.kb))
+	verifapi.WitnessList("Sym.n", verifKN(s.kn))
 	verifapi.WitnessList("Sym.u", verifKN(s.u1), verifKN(s.u2))
 	out := verifRun(src)
 	verifapi.Reach("ran")
@@ -940,7 +1261,9 @@ func verifExpectCovers(out, id, class string, row int, ks []int) {
 	verifapi.Assert(verifLineCovers(verifLine(out, row), ks), id)
 }
 
-var verifUserNames = []string{"def-before-calls", "calls-before-def", "default-parameter", "keyword-parameter", "explicit-return", "call-inside-another-method", "body-operation", "three-call-sites", "calls-before-and-after-def", "caller-method-defined-before-callee", "keyword-calls-before-and-after-def"}
+var verifUserNames = []string{"def-before-calls", "calls-before-def", "default-parameter", "keyword-parameter", "explicit-return", "call-inside-another-method", "body-operation", "three-call-sites", "calls-before-and-after-def", "caller-method-defined-before-callee", "keyword-calls-before-and-after-def",
+	"two-single-letter-keywords-declared-out-of-order", "single-letter-and-longer-keyword", "positional-default-and-keyword-mix", "call-inside-block-and-inside-method",
+	"two-methods-with-the-same-parameter-name", "instance-method-of-a-class", "class-method-of-a-class", "three-keywords-given-in-another-order", "explicit-return-of-two-kinds"}
 
 func VerifUserMethod(n int) {
 	sk := verifapi.Concrete(verifapi.Int("skeleton", 0, len(verifUserNames)-1))
@@ -974,10 +1297,58 @@ func VerifUserMethod(n int) {
 		src = "def g(w)\nf(w)\nend\ndef f(v)\ndbtp v\nv\nend\nr1 = g(Sym.a)\nr2 = f(Sym.b)\ndbtp r2\n"
 	case 10:
 		src = "r1 = f(k: Sym.a)\ndef f(k:)\ndbtp k\nk\nend\nr2 = f(k: Sym.b)\ndbtp r2\n"
+	case 11:
+		src = "def f(k:, b:)\ndbtp k\ndbtp b\nk\nend\nr1 = f(k: Sym.a, b: Sym.b)\ndbtp r1\n"
+	case 12:
+		src = "def f(k:, ab:)\ndbtp k\ndbtp ab\nk\nend\nr1 = f(ab: Sym.b, k: Sym.a)\ndbtp r1\n"
+	case 13:
+		src = "def f(v, w = 2, k: 3)\ndbtp v\ndbtp w\ndbtp k\nv\nend\nf(Sym.a)\nf(Sym.b, 1.5, k: \"s\")\n"
+	case 14:
+		src = "def f(v)\ndbtp v\nv\nend\n[1].each do |e|\nf(Sym.a)\nend\ndef g\nf(Sym.b)\nend\ng\n"
+	case 15:
+		src = "def f(v)\ndbtp v\nv\nend\ndef g(v)\ndbtp v\nv\nend\nf(Sym.a)\ng(Sym.b)\n"
+	case 16:
+		src = "class Kk\ndef m(v)\ndbtp v\nv\nend\nend\nk = Kk.new\nr1 = k.m(Sym.a)\nr2 = k.m(Sym.b)\ndbtp r1\ndbtp r2\n"
+	case 17:
+		src = "class Kk\ndef self.m(v)\ndbtp v\nv\nend\nend\nr1 = Kk.m(Sym.a)\nr2 = Kk.m(Sym.b)\ndbtp r1\ndbtp r2\n"
+	case 18:
+		src = "def f(ka:, kb:, kc:)\ndbtp ka\ndbtp kb\ndbtp kc\nkc\nend\nr1 = f(kc: 1.5, ka: Sym.a, kb: Sym.b)\ndbtp r1\n"
+	case 19:
+		src = "def f(v)\nif v.nil?\nreturn 1.5\nend\nv\nend\nr = f(Sym.a)\ndbtp r\n"
 	}
 	verifapi.Witness("src", src)
 	out := verifRun(src)
 	verifapi.Reach("ran")
+	switch sk {
+	case 11, 12:
+		verifExpectCovers(out, "C15-param", cls("parameter-type-misses-a-call-site"), 2, []int{s.ka})
+		verifExpectCovers(out, "C15-param2", cls("parameter-type-misses-a-call-site"), 3, []int{s.kb})
+		verifExpectCovers(out, "C15-ret1", cls("call-result-misses-argument-type"), 7, []int{s.ka})
+	case 13:
+		verifExpectCovers(out, "C15-param", cls("parameter-type-misses-a-call-site"), 2, ab)
+		verifExpectCovers(out, "C15-param2", cls("parameter-type-misses-a-call-site"), 3, []int{base.VkInt, base.VkFloat})
+		verifExpectCovers(out, "C15-param3", cls("parameter-type-misses-a-call-site"), 4, []int{base.VkInt, base.VkString})
+	case 14:
+		verifExpectCovers(out, "C15-param", cls("parameter-type-misses-a-call-site"), 2, ab)
+	case 15:
+		verifExpectOneOf(out, "C15-param", cls("parameter-type-of-another-method-leaks-in"), 2, []string{verifKN(s.ka)})
+		verifExpectOneOf(out, "C15-param2", cls("parameter-type-of-another-method-leaks-in"), 6, []string{verifKN(s.kb)})
+	case 16:
+		verifExpectCovers(out, "C15-param", cls("parameter-type-misses-a-call-site"), 3, ab)
+		verifExpectCovers(out, "C15-ret1", cls("call-result-misses-argument-type"), 10, []int{s.ka})
+		verifExpectCovers(out, "C15-ret2", cls("call-result-misses-argument-type"), 11, []int{s.kb})
+	case 17:
+		verifExpectCovers(out, "C15-param", cls("parameter-type-misses-a-call-site"), 3, ab)
+		verifExpectCovers(out, "C15-ret1", cls("call-result-misses-argument-type"), 9, []int{s.ka})
+		verifExpectCovers(out, "C15-ret2", cls("call-result-misses-argument-type"), 10, []int{s.kb})
+	case 18:
+		verifExpectCovers(out, "C15-param", cls("parameter-type-misses-a-call-site"), 2, []int{s.ka})
+		verifExpectCovers(out, "C15-param2", cls("parameter-type-misses-a-call-site"), 3, []int{s.kb})
+		verifExpectCovers(out, "C15-param3", cls("parameter-type-misses-a-call-site"), 4, []int{base.VkFloat})
+		verifExpectCovers(out, "C15-ret1", cls("call-result-misses-argument-type"), 8, []int{base.VkFloat})
+	case 19:
+		verifExpectCovers(out, "C15-ret1", cls("call-result-misses-a-return-value"), 8, []int{base.VkFloat})
+	}
 	switch sk {
 	case 0:
 		verifExpectCovers(out, "C15-param", cls("parameter-type-misses-a-call-site"), 2, ab)
@@ -1142,6 +1513,69 @@ func VerifClasses(n int) {
 	verifapi.Assert(lnew != "" && lnew != r && !verifIsTypeName(lnew), "C16-new")
 	verifExpect(out, "C16-bar", "C16/visibility-section-leaks-into-another-class/"+collide, base0+6, "Integer")
 	verifapi.Witness("shape", shape)
+}
+
+// VerifVisibility: a target method defined in the class itself, its superclass, a module the
+// class includes, or a module the superclass includes, under public / private / protected, is
+// called (1) with an implicit receiver from an instance method of the class, (2) with an
+// explicit receiver (`other.tgt`, other an instance of the same class) from that method, and
+// (3) from top level. Ruby's rule: public - all three resolve; private - only (1);
+// protected - (1) and (2), (3) is reported.
+func VerifVisibility(n int) {
+	def := verifapi.Concrete(verifapi.Int("definer", 0, 3))
+	vis := verifapi.Concrete(verifapi.Int("vis", 0, 2))
+	s := verifInstallSym("a")
+	verifapi.WitnessList("Sym.a", verifKN(s.ka))
+	visKw := []string{"", "private\n", "protected\n"}[vis]
+	tgt := visKw + "def tgt\nSym.a\nend\n"
+	at := func(d int) string {
+		if d == def {
+			return tgt
+		}
+		return ""
+	}
+	src := "module Mm\ndef mfill\n1\nend\n" + at(2) + "end\n"
+	src += "module Nn\ndef nfill\n1\nend\n" + at(3) + "end\n"
+	src += "class Pa\ninclude Nn\ndef pfill\n1\nend\n" + at(1) + "end\n"
+	src += "class Kk < Pa\ninclude Mm\ndef go(other)\n"
+	base0 := verifCountLines(src)
+	src += "dbtp tgt\ndbtp other.tgt\ndbtp other.kfill\nend\ndef kfill\n2.5\nend\n" + at(0) + "end\n"
+	src += "k = Kk.new\nk.go(Kk.new)\n"
+	outRow := verifCountLines(src) + 1
+	src += "dbtp k.tgt\ndbtp k.kfill\ndbtp k.pfill\n"
+	verifapi.Witness("src", src)
+	out := verifRun(src)
+	verifapi.Reach("ran")
+	verifapi.Witness("engine-output", out)
+	where := []string{"own-class", "superclass", "included-module", "module-included-by-superclass"}[def]
+	visName := visName3[vis]
+	shape := visName + "-method-of-" + where
+	resolves := func(id string, row int, what string) {
+		verifExpect(out, id, "C16/"+what+"/"+shape, row, verifKN(s.ka))
+	}
+	reported := func(id string, row int, what string) {
+		verifapi.Witness(id+".row", verifItoa(row))
+		verifapi.Witness(id+".demand", "diagnostic-not-a-type")
+		verifapi.Classify("C16/" + what + "/" + shape)
+		l := verifLine(out, row)
+		verifapi.Assert(l != "" && !verifIsTypeName(l), id)
+	}
+	resolves("C16-v-implicit", base0+1, "call-with-implicit-receiver-inside-the-class-not-resolved")
+	switch vis {
+	case 0:
+		resolves("C16-v-explicit", base0+2, "call-on-another-instance-inside-the-class-not-resolved")
+		resolves("C16-v-outside", outRow, "public-call-from-outside-not-resolved")
+	case 1:
+		reported("C16-v-explicit", base0+2, "private-method-call-with-receiver-not-reported")
+		reported("C16-v-outside", outRow, "private-method-call-with-receiver-not-reported")
+	case 2:
+		resolves("C16-v-explicit", base0+2, "protected-call-inside-the-hierarchy-reported-or-unresolved")
+		reported("C16-v-outside", outRow, "protected-method-call-from-outside-not-reported")
+	}
+	// the visibility keyword must not leak: methods defined before it stay public
+	verifExpect(out, "C16-v-fill", "C16/visibility-section-leaks-to-an-earlier-or-other-method/"+shape, base0+3, "Float")
+	verifExpect(out, "C16-v-fill2", "C16/visibility-section-leaks-to-an-earlier-or-other-method/"+shape, outRow+1, "Float")
+	verifExpect(out, "C16-v-fill3", "C16/visibility-section-leaks-to-an-earlier-or-other-method/"+shape, outRow+2, "Integer")
 }
 
 // ---- C20: declarations for classes a program never mentions ----
